@@ -64,7 +64,7 @@ def _compare_const(node):
 def extract():
     d = {"tol": None, "extra": None, "break_tol": None, "inner_test": "?", "inner_op": "?", "inner_rhs": "?",
          "break_lhs": "?", "break_op": "?", "break_test": "?", "num_iter": "?", "loop_iter": "?", "reorth_guard": "?",
-         "guards_single": False, "first_guard": "?", "trim": "?", "loop_body": [], "reorth_body": [], "extra_body": [], "pre_loop": [],
+         "guards_single": False, "first_guard": "?", "trim": "?", "loop_body": [], "reorth_body": [], "extra_body": [], "pre_loop": [], "setup": [],
          "params": [], "multiple_init_vecs": "?", "mask": "?", "mask_fill": None, "mask_fill_text": "?", "evec_mask": "?",
          "eigh_cpu_below": None, "to_diag_body": [], "tridiagonal_jitter": None, "max_root_decomposition_size": None,
          "root_jitter": [], "diag_jitter": [], "root_assembly": [], "post_body": [], "slq_call": "?"}
@@ -88,6 +88,18 @@ def extract():
                     d["num_iter"] = _flat(st.value)
                 if st.targets[0].id == "multiple_init_vecs":
                     d["multiple_init_vecs"] = _flat(st.value)
+        # statements from `if init_vecs is None:` up to (not including) `q_0_vec = ...`: nothing may touch supplied `init_vecs` there
+        in_setup = False
+        for st in fn.body:
+            if isinstance(st, ast.If) and _flat(st.test) == "init_vecs is None":
+                in_setup = True
+            if isinstance(st, ast.Assign) and isinstance(st.targets[0], ast.Name):
+                if st.targets[0].id == "num_iter":
+                    in_setup = True
+                if st.targets[0].id == "q_0_vec":
+                    break
+            if in_setup:
+                d["setup"].append(_flat(st))
         # statements between `q_0_vec = ...` and the loop
         started = False
         for st in fn.body:
@@ -215,6 +227,8 @@ def render(d):
          f"def trim : String := {lean_str(d['trim'])}",
          f"def multipleInitVecs : String := {lean_str(d['multiple_init_vecs'])}",
          f"def params : List (String × String) := [" + ", ".join(f"({lean_str(a)}, {lean_str(b)})" for a, b in d["params"]) + "]",
+         "/-- the statements from `if init_vecs is None:` up to the normalisation of the start vector -/",
+         f"def setup : List String := {sl(d['setup'])}",
          f"def preLoop : List String := {sl(d['pre_loop'])}",
          f"def loopBody : List String := {sl(d['loop_body'])}",
          f"def reorthBody : List String := {sl(d['reorth_body'])}",
